@@ -399,6 +399,10 @@ int main(int argc, char *argv[])
 		else if (!strcmp(line, "CC")) { if (nheld) slot_close(held[(size_t)atol(a1) % nheld]); }
 		else if (!strcmp(line, "H")) { char rq[512]; snprintf(rq, sizeof(rq), "%s\r\n\r\n", a2); do_request("Http", (uid_t)strtoul(a1, 0, 10), rq); }
 		else if (!strcmp(line, "T")) { the_loop.now += atof(a1); fprintf(o, "{\"e\":\"Tick\",\"now\":%.1f}\n", the_loop.now - T0); }
+		/* TJ n: the wall clock is n seconds further on than the monotonic clock accounts for (the clock was set, or the machine slept):
+		 * libev notices the two have drifted apart (time_update, and the timerfd of 4.33) and reschedules every periodic before it
+		 * looks for due ones - the same periodics_reschedule() as after ev_loop_fork */
+		else if (!strcmp(line, "TJ")) { the_loop.now += atof(a1); postfork = 1; fprintf(o, "{\"e\":\"Tick\",\"now\":%.1f,\"jump\":true}\n", the_loop.now - T0); }
 		else if (!strcmp(line, "R")) { hx_reify(); fprintf(o, "{\"e\":\"Reify\",\"now\":%.1f}\n", the_loop.now - T0); }
 		else if (!strcmp(line, "D") || !strcmp(line, "DA")) {
 			int all = line[1] == 'A';
